@@ -23,6 +23,34 @@ CHECKS = {
              "limited by a byte budget (evidence: traces_validated_against_impl), the rest only by the implementation-side comparison.",
         technique="TLA+ reference reader/printer model-checked with TLC; TLC-generated values replayed through 16 entry-point pairs; printed texts validated by TLC against the reference reader",
     ),
+    "C02": dict(
+        category="model_checking",
+        text="TLC enumerates every printer option set (576) with the parser option sets compatible with it (quick: 4 representative "
+             "ones per printer set; thorough: all, about 74 000 pairings) and checks on the reference reader/printer that the round "
+             "trip yields the documented folding for every probe value. Every pairing x probe value is then executed on the "
+             "implementation against the folding table TLC emitted, together with seeded random values; a sample of the printed "
+             "texts is read by the TLA+ reference reader under the pairing's parser options (the independent reader of the "
+             "Emacs Lisp subset).",
+        design_ref="DESIGN.md section 6 (C02), sections 3.1, 3.3, 3.4",
+        note="Trusted: TLC, the reference reader/printer, Sexp!Compatible and Sexp!Fold as the reading of 'recognises what the "
+             "printer emits' and 'documented dialect folding'; the harness mirror of Fold (checked against TLC's table on every "
+             "run). Names come from identifiers that are plain in every dialect. Probe set: 88 values.",
+        technique="TLA+ reference reader/printer model-checked over all dialect pairings with TLC; pairings and folding table replayed into the implementation; printed texts validated by TLC",
+    ),
+    "C08": dict(
+        category="model_checking",
+        text="For every input of a token corpus (each token class with its near misses) in 7 syntactic contexts TLC evaluates the "
+             "reference token classifier under all 1536 parser option sets, checks non-interference on the specification (the "
+             "outcome depends only on the option dimensions the input exercises) and emits the expected outcome per projection "
+             "class. The implementation parses every input under all 1536 option sets; each result is compared with the expected "
+             "outcome and, independently of the reference, results are required to be identical within a projection class. A sample "
+             "of (input, options, result) events is validated by TLC against the reference reader.",
+        design_ref="DESIGN.md section 6 (C08), section 3.3, Appendix B",
+        note="Trusted: TLC and the reference classifier (ClassifyToken, written from the documentation; outcomes the documentation "
+             "does not determine are 'unspec' and only subject to the implementation-only relation). The corpus is finite (133 "
+             "tokens x contexts); exhaustive over option sets.",
+        technique="TLA+ declarative token classifier model-checked with TLC for non-interference over 1536 option sets; expected outcomes replayed into the parser; results validated by TLC",
+    ),
     "C07": dict(
         category="fault_enumeration",
         text="The sink machine of spec/Sink.tla (write_all discipline against a sink that may accept any prefix, return 0, fail or "
